@@ -455,6 +455,9 @@ class _Expr(SymEval):
                 dt = kw.get("dtype", args[1] if len(args) > 1 else None)
                 return _prog_call(np.array, args[0], dtype=dt if dt in (None, int, float, bool) or isinstance(dt, type) else None)
             if f.attr in ("array", "asarray") and args and isinstance(args[0], (list, tuple)) and args[0] and _all_str(args[0]):
+                dt = kw.get("dtype", args[1] if len(args) > 1 else None)
+                if dt in (float, int) or (isinstance(dt, type) and issubclass(dt, np.generic)):
+                    return _prog_call(np.array, args[0], dtype=dt)  # numpy parses the words as numbers
                 return _prog_call(np.array, args[0])  # an array of words, to be cut and converted later
             if f.attr in ("array", "asarray") and args and isinstance(args[0], np.ndarray):
                 # np.asarray hands back the very same array (no dtype change asked, or the same dtype): the result
